@@ -153,6 +153,10 @@ def initial_texture(kind, rng, n):
         f = rng.dirichlet(np.full(n, 0.3))
         f = np.clip(f, 1e-12, None)
         f /= f.sum()
+    elif kind == "aligned_mixed":   # one grain exactly aligned with the reference frame among random ones
+        A = random_rotations(rng, n)
+        A[0] = np.eye(3)
+        f = np.full(n, 1.0 / n)
     elif kind == "aligned":
         A = np.repeat(np.eye(3)[None], n, axis=0)
         f = np.full(n, 1.0 / n)
